@@ -1,2 +1,33 @@
-/- stub: line-protocol driver for C07 (to be written) -/
-def main : IO Unit := pure ()
+/- Driver for C07: one scope script per line (events `E:a,b` enter with binders, `L` leave, `D:x` declare, `U:x` use);
+   prints whether the script is well nested and, per use, the declaration ordinal the declarative semantics (`specRun`)
+   and the frame-store machine (`implRun`) bind it to. -/
+import UtapModel.Model.ScopeScript
+open UtapModel.Builder
+
+def parseEv (tok : String) : Option Ev :=
+  if tok == "L" then some .leave
+  else if tok.startsWith "E:" then
+    let rest := (tok.drop 2).toString
+    some (.enter (if rest == "" then [] else rest.splitOn ","))
+  else if tok.startsWith "D:" then some (.declare (tok.drop 2).toString)
+  else if tok.startsWith "U:" then some (.use (tok.drop 2).toString)
+  else none
+
+def showB (l : List (Option Nat)) : String :=
+  ",".intercalate (l.map (fun o => match o with | some n => toString n | none => "none"))
+
+def stepLine (line : String) : String :=
+  let toks := (line.trimAscii.toString.splitOn " ").filter (· ≠ "")
+  match toks.mapM parseEv with
+  | none => "bad-script"
+  | some evs =>
+    let wn := wellNested 0 evs
+    s!"{if wn then "WN" else "NOTWN"} spec={showB (specRun [[]] 0 evs)} impl={showB (implRun SState.init evs)}"
+
+partial def loop (h : IO.FS.Stream) (out : IO.FS.Stream) : IO Unit := do
+  let line ← h.getLine
+  if line.isEmpty then return ()
+  out.putStrLn (stepLine line)
+  loop h out
+
+def main : IO Unit := do loop (← IO.getStdin) (← IO.getStdout)
